@@ -12,7 +12,7 @@ def run(ctx, rep):
     emitrules.report(
         ctx,
         rep,
-        {"O1": "C02-R4", "O2": "C02-R4", "O3": "C02-R5", "O4": "C02-R5", "O5": "C02-R6", "O6": "C02-R6", "O7": "C02-R7", "O8": "C02-R8", "O11": "C02-R9", "O12b": "C02-R10"},
+        {"O1": "C02-R4", "O2": "C02-R4", "O3": "C02-R5", "O4": "C02-R5", "O5": "C02-R6", "O6": "C02-R6", "O7": "C02-R7", "O8": "C02-R8", "O11": "C02-R9", "O12b": "C02-R10", "O13": "C02-R11"},
         {
             "C02-R4": "every branch of the statement compiler is stack-neutral and every branch of the expression/value compilers nets +1 on every path (structural induction over the compiler's own source, opcode effects derived from the dispatcher)",
             "C02-R5": "every jump join, loop back edge and break/continue target is reached at one consistent operand depth",
@@ -20,6 +20,7 @@ def run(ctx, rep):
             "C02-R7": "a throw restores the operand depth recorded when the try was entered",
             "C02-R8": "every way out of a try block (break/continue/return) removes its handler record",
             "C02-R9": "every jump placeholder is patched exactly once and every context's jump lists are patched by the branch that created it",
+            "C02-R11": "what each context on the compiler's context stack declares (operands held, handler record registered, finally block pending) is what the statement branch really set up whenever it compiles a nested statement, so that break/continue/return undo exactly that",
             "C02-R10": "per-function compiler state (including flags that tell the VM what a function can leave behind) is saved, reset and restored by both function compilers",
         },
     )
